@@ -34,10 +34,15 @@ def gen_case(rng, thorough):
         im = dict(owner=rng.randrange(ncls), hook=h, tier=rng.choice([0, 1, 1, 2]), wrapper=False, guarded=False, post=None,
                   prog=gen_prog(rng, h, nhooks, nobj))
         ops.append(('register', next_id, im)); live.append(next_id); next_id += 1
+    copies = 0
     for _ in range(rng.randint(5, 30 if not thorough else 70)):
-        o, h = rng.randrange(nobj), rng.randrange(nhooks)
+        o, h = rng.randrange(nobj + copies), rng.randrange(nhooks)
         r = rng.random()
-        if r < 0.34:
+        if r < 0.04 and copies < 2:
+            # a further instance obtained by copy.copy: explicit and remembered values are taken over, from then on it is an instance of its own
+            ops.append(('copyobj', nobj + copies, o))
+            copies += 1
+        elif r < 0.34:
             ops.append(('read', o, h))
         elif r < 0.50:
             v = rng.choice([('int', 0), ('bool', False), ('int', 5), ('int', rng.randint(1, 99)), ('none',),
@@ -135,6 +140,93 @@ def oracle_case(chk, case):
     return True
 
 
+def copy_oracle(chk):
+    """independence of instances: a shallow copy takes over explicit and remembered values and is an instance of its own from then on -
+    what is computed or cleared on one of the two is not remembered or forgotten on the other"""
+    import copy
+    from typing import Any
+    from pyroll.core.hooks import Hook, HookHost
+
+    class H(HookHost):
+        x = Hook[Any]()
+        y = Hook[Any]()
+    hf = H.x(lambda self: self.y * 2)
+    try:
+        a = H()
+        a.y = 5
+        b = copy.copy(a)
+        b.y = 50
+        vb = b.x
+        chk.cov['evaluations'] += 3
+        if a.has_cached("x") or a.x != 10 or vb != 100:
+            return chk.fail('copy-shares-remembered', f"a.y = 5; b = copy.copy(a); b.y = 50; b.x = {vb!r}: afterwards a.has_cached('x') is {a.has_cached('x')} "
+                            f"and a.x = {a.x!r} (x := 2 * y; a never computed x before)", {})
+        b.__cache__.clear()
+        if not a.has_cached("x"):
+            return chk.fail('copy-shares-remembered', "clearing the remembered values of a copy made the original forget its own", {})
+        c = copy.copy(a)
+        if not c.has_cached("x") or c.x != 10 or c.y != 5:
+            return chk.fail('copy-shares-remembered', "a shallow copy does not take over the explicit and remembered values of the original", {})
+    finally:
+        hf.hook.remove_function(hf)
+
+
+def solver_roots_oracle(chk):
+    """root hooks evaluated by the real solver become explicit values of their object and survive re-evaluation: every unit, profile, roll and disk
+    element of a solved line with two-roll and three-roll passes, a transport and a rotator"""
+    from pyroll.core import (PassSequence, RollPass, ThreeRollPass, Transport, Rotator, Roll, CircularOvalGroove, Profile)
+    from pyroll.core.hooks import root_hooks
+
+    def fs(self):
+        return 50e6
+    hfs = [RollPass.Profile.flow_stress(fs), ThreeRollPass.Profile.flow_stress(fs)]
+    try:
+        ip = Profile.round(diameter=30e-3, temperature=1473.15, strain=0, material=["C45"], density=7.5e3, specific_heat_capacity=690, length=1)
+        seq = PassSequence([
+            RollPass(label='oval', roll=Roll(groove=CircularOvalGroove(depth=8e-3, r1=6e-3, r2=40e-3), nominal_radius=160e-3, rotational_frequency=1), gap=2e-3),
+            Transport(label='transport', duration=1), Rotator(label='rotator', rotation=90),
+            ThreeRollPass(label='three-roll', roll=Roll(groove=CircularOvalGroove(depth=6e-3, r1=3e-3, r2=25e-3, pad_angle=30), nominal_radius=160e-3,
+                                                        rotational_frequency=1), gap=2e-3, disk_element_count=2)])
+        seq.solve(ip)
+
+        def walk(u):
+            yield u
+            for sub in getattr(u, '_subunits', []):
+                yield from walk(sub)
+        objs = []
+        for u in walk(seq):
+            objs.append((f"{type(u).__name__} {u.label!r}", u))
+            for n in ('in_profile', 'out_profile', 'roll'):
+                o = getattr(u, n, None)
+                if o is not None:
+                    objs.append((f"{n} of {type(u).__name__} {u.label!r}", o))
+        for label, o in objs:
+            for h in list(root_hooks):
+                if not isinstance(o, h.owner):
+                    continue
+                chk.cov['evaluations'] += 1
+                if h.name in o.__dict__:
+                    continue
+                try:
+                    has = o.has_value(h.name)
+                except Exception:      # noqa
+                    has = False
+                if has:
+                    return chk.fail('root-not-explicit', f"after PassSequence.solve the root hook {h.owner.__qualname__}.{h.name} of {label} has a value "
+                                    f"but is not an explicit value of the object (it would be lost by re-evaluation and hand-over)", {'object': label, 'hook': h.name})
+        before = {(label, n): v for label, o in objs for n, v in o.__dict__.items()}
+        for label, o in objs:
+            if hasattr(o, 'reevaluate_cache'):
+                o.reevaluate_cache()
+        for label, o in objs:
+            for h in list(root_hooks):
+                if isinstance(o, h.owner) and (label, h.name) in before and o.__dict__.get(h.name) is not before[(label, h.name)]:
+                    return chk.fail('root-not-explicit', f"the solver-set root hook {h.name} of {label} did not survive re-evaluation", {'object': label, 'hook': h.name})
+    finally:
+        for hf in hfs:
+            hf.hook.remove_function(hf)
+
+
 def run(chk):
     chk.coq.add_prop_file('C02.v')
     chk.coq.compile('C02.v', is_props=True, timeout=900)
@@ -161,6 +253,10 @@ def run(chk):
     chk.cov['distinct_nontrivial'] += len(seen)
     if shrunk and not chk.failures:
         X.report_deviation(chk, shrunk[0][0], shrunk[0][1], 'dev')
+    if not chk.failures:
+        solver_roots_oracle(chk)
+    if not chk.failures:
+        copy_oracle(chk)
     chk.sample(ser(cases[0]))
     chk.cov['rule'] = ("seeded random histories of read / assign (plain, falsy, None, zero- and one-argument callables) / delete / "
                        "re-evaluate / cache clear / register / remove / root evaluation / has_* on 1-3 instances of 1-3 classes with "
